@@ -364,17 +364,28 @@ def _replay_clipped(gem, P, A, n, Kc, verbose):
     return worst > 1e-4
 
 
+# quick-tier trimming (measured on the idle 16-core box): these (objective, shape) pairs need minutes, not seconds
+SLOW = {("H2-ovo", (3, 2)), ("H2-ovo", (2, 3)), ("MMD-ovo", (2, 3))}
+SLOW_CLIP = {"H2-ova", "H2-ovo", "MMD-ovo"}
+
+
 def jobs(tier):
     shapes = QUICK_SHAPES if tier == "quick" else THOROUGH_SHAPES
     out = []
+    q = tier == "quick"
     for lab in cg.CLASSES:
         for (n, Kc) in shapes:
+            if q and (lab, (n, Kc)) in SLOW:
+                continue
             out.append({"name": f"{lab}/n{n}K{Kc}", "target": "checks.c02:job",
-                        "kwargs": dict(label=lab, n=n, Kc=Kc, timeout_q=(20.0 if tier == "quick" else 300.0)),
-                        "timeout": (200 if tier == "quick" else 2400)})
-        for (n, Kc) in ([(2, 2)] if tier == "quick" else [(2, 2), (2, 3)]):
-            out.append({"name": f"{lab}/clip/n{n}K{Kc}", "target": "checks.c02:job_clip", "kwargs": dict(label=lab, n=n, Kc=Kc),
-                        "timeout": (200 if tier == "quick" else 1200)})
+                        "kwargs": dict(label=lab, n=n, Kc=Kc, timeout_q=(20.0 if q else 300.0)),
+                        "timeout": (200 if q else 2400)})
+        for (n, Kc) in ([(2, 2)] if q else [(2, 2), (2, 3)]):
+            if q and lab in SLOW_CLIP:
+                continue
+            out.append({"name": f"{lab}/clip/n{n}K{Kc}", "target": "checks.c02:job_clip",
+                        "kwargs": dict(label=lab, n=n, Kc=Kc, timeout_q=(15.0 if q else 120.0)),
+                        "timeout": (200 if q else 2400)})
     return out
 
 
